@@ -122,6 +122,13 @@ def check_extract(run, S, name, spec, kw):
                 xe = ye = None
             run.ob(key + ':x', xe is not None and A.eq(xe, ZERO), rule='K3', expected='x = 0 inside the gimbal-lock cone', found=xe, where=where)
             run.ob(key + ':y', ye is not None and A.eq(ye, El.c(TWO_PI / 4 * sign)), rule='K3 + K13', expected='y = %s full_turn/4' % ('+' if sign > 0 else '-'), found=ye, where=where)
+            try:
+                ze = scalar_el(cv, z)
+            except Exception:
+                ze = None
+            zexp = A.fn('atan2', qx, qw) * (2 * sign)
+            run.ob(key + ':z', ze is not None and A.eq(ze, zexp), rule='K3 (exact gimbal lock: x + z resp. x - z is all that is determined; with x = 0, z = +-2 atan2(qx, qw))',
+                   expected='z = %s2 atan2(qx, qw)' % ('' if sign > 0 else '-'), found=S.showval(z)[:160], where=where)
         else:
             kinds['exact'] = li
             # both lock guards false
@@ -165,5 +172,5 @@ def run(tier):
     return run.finish(
         explanation='Construction (Rad and Deg): Matrix3, Matrix4, Basis3 from Euler equal R_x(x) R_y(y) R_z(z) computed from the elementary tables (exact polynomial identity in the six sin/cos symbols), Quaternion from Euler equals Q_x Q_y Q_z in half-angle symbols, and the composed code from_angle_x*from_angle_y*from_angle_z equals the same. Extraction: the outcome tree must have exactly two gimbal-lock leaves guarded by qx*qz + qy*qw compared with +-k|q|^2, k = 0.499, reporting x = 0 and y = +-full_turn/4, and one exact leaf with y = asin(m20), x = atan2(-m21, m22), z = atan2(-m10, m00) for the rotation matrix m of q (modulo |q| = 1), which by the construction table are sin y, sin x cos y, cos x cos y, cos y sin z, cos y cos z - hence exact rebuilding and the documented ranges from the ranges of asin / atan2.',
         trusted_base=['rustc nightly type checking / trait resolution / MIR construction', 'mirsum abstract interpreter; trigonometric functions as symbols', 'range lemmas: asin in [-pi/2, pi/2], atan2 in [-pi, pi]', 'rules/algebra.py, rules/specs.py (selfcheck)'],
-        not_decided=['the 0.13 matrix-element bound inside the gimbal-lock cone (numerical)', 'range of z in the lock leaves'],
+        not_decided=['the 0.13 matrix-element bound inside the gimbal-lock cone (numerical; the lock-leaf formula z = +-2 atan2(qx, qw) itself is checked)'],
         exhaustive=True)
